@@ -14,6 +14,7 @@
 //! | `it` | stored path: `path.iter().flattened(tol)` (`f`), `iter_with_attributes().for_each_flattened` (`a`) |
 //! | `ix` | `path.iter().transformed(&m)` (`t`), `path.clone().transformed(&m).iter_with_attributes()` (`s`) |
 //! | `in` | `path.iter().transformed(&m).flattened(tol)` (`tf`), `path.iter().flattened(tol).transformed(&m)` (`ft`) |
+//! | `e2e` | `Flattened::new(Rec(n), tol)` (`b`), `path.iter().flattened(tol)` (`f`), `for_each_flattened` (`a`) — no advice: the model side runs the C09 model of lyon_geom's flattener (end-to-end tie) |
 //!
 //! CASE  `n tol m11 m12 m21 m22 m31 m32 <prog>`; prog = `B x y a*n | L x y a*n | Q cx cy x y a*n |
 //!       C c1 c2 x y a*n | E 0/1`, then the ADVICE: for every curve a route will flatten (in the
@@ -1033,6 +1034,23 @@ fn run_family(fam: &str, inp: &Input) -> CaseOut {
             ev_flat(&mut orc, &mut def, "iter.for-each-flattened", Kind::AttrIter, prog, tol, &id, true, &a);
             ev_flat(&mut orc, &mut def, "iter.flatten", Kind::Iter, prog, tol, &id, false, &f);
         }
+        "e2e" => {
+            let calls = rec_run(|r| Flattened::new(r, tol), n, prog);
+            let path = build_path(n, prog);
+            let f: Vec<Ev> = path.iter().flattened(tol).map(ev_plain).collect();
+            let mut a: Vec<Ev> = vec![];
+            path.iter_with_attributes().for_each_flattened(tol, &mut |e| a.push(ev_attr(e)));
+            o.t("b");
+            put_prog(&mut o, &calls);
+            o.t("f");
+            put_evs(&mut o, &f);
+            o.t("a");
+            put_evs(&mut o, &a);
+            nested(&mut orc, "builder.flatten", &calls);
+            check_flat(&mut orc, &mut def, "builder.flatten", Kind::Builder, prog, tol, &id, true, &calls);
+            ev_flat(&mut orc, &mut def, "iter.for-each-flattened", Kind::AttrIter, prog, tol, &id, true, &a);
+            ev_flat(&mut orc, &mut def, "iter.flatten", Kind::Iter, prog, tol, &id, false, &f);
+        }
         "ix" => {
             let path = build_path(n, prog);
             let t: Vec<Ev> = path.iter().transformed(&m).map(ev_plain).collect();
@@ -1128,6 +1146,7 @@ fn main() {
         for fam in ["bf", "bt", "bn", "na", "pb", "it", "ix", "in"] {
             emit(&mut ctx, fam, None);
         }
+        emit(&mut ctx, "e2e", None);
     }
     ctx.finish();
 }
